@@ -139,6 +139,10 @@ def run(ctx):
     for threads, mmap, mode in combos[:2] if ctx.quick else combos:
         obs = _lib_scenario(ctx, aux, inputs, threads, mmap, mode, new_kind="so", premise=True, symlink=True)
         ctx.count("symlinked-output", obs)
+    # ---- (b'') the same after a killed earlier link left its temporary name behind and the pid is reused (checked directly, as b')
+    for threads, mmap, mode in combos[:3] if ctx.quick else combos:
+        obs = _lib_scenario(ctx, aux, inputs, threads, mmap, mode, new_kind="so", premise=True, stale=True)
+        ctx.count("stale-temporary-name", obs)
     # ---- (c) boundary runs: premise not met; recorded, compared with the model, never violations
     for threads in (4, 1):
         obs = _lib_scenario(ctx, aux, inputs, threads, 1, "default", new_kind="exe", premise=False)
@@ -201,7 +205,22 @@ def _exe_scenario(ctx, inputs, threads, mmap, mode, premise):
         C.stop(p)
 
 
-def _lib_scenario(ctx, aux, inputs, threads, mmap, mode, new_kind, premise, symlink=False):
+def plant_stale_temporaries(d, name, span=2000):
+    """History: an earlier link of the same output was killed after it had given the old file its temporary second name
+    `.<output>.wild-old.<pid>`, and the process id has since been reused. The next process ids are allocated sequentially, so a
+    stale file is planted for each of the next `span` ids."""
+    p = subprocess.Popen(["true"])
+    p.wait()
+    pid_max = int(open("/proc/sys/kernel/pid_max").read())
+    for k in range(1, span + 1):
+        q = p.pid + k
+        if q >= pid_max:
+            q = 300 + (q - pid_max)
+        with open(os.path.join(d, f".{name}.wild-old.{q}"), "w") as f:
+            f.write("stale")
+
+
+def _lib_scenario(ctx, aux, inputs, threads, mmap, mode, new_kind, premise, symlink=False, stale=False):
     d = C.mk_sandbox(ctx, "c21b")
     obj = os.path.join(d, "lib.o")
     shutil.copy(os.path.join(aux, "lib1.o"), obj)
@@ -228,6 +247,8 @@ def _lib_scenario(ctx, aux, inputs, threads, mmap, mode, new_kind, premise, syml
         else:
             shutil.copy(os.path.join(inputs, "sleeper2.o"), obj)
             cmd2 = [obj, "-o", "libh.so"] + flags(threads, mmap, mode)
+        if stale:
+            plant_stale_temporaries(d, "libh.so")
         rc, err = C.run_wild(cmd2, d)
         v1 = h.query()
         v2 = h.query()
